@@ -556,6 +556,15 @@ func genCase(t *rapid.T) Case {
 	}
 
 	branch := rapid.IntRange(0, 99).Draw(t, "branch")
+	// The classes of branches 42/43 and 95 are mandatory and were close to empty
+	// at some seeds (expected count 2-4 in 2000 cases): give them part of the
+	// share of their wide neighbours, so that every class is expected >= 15 times.
+	switch branch {
+	case 41:
+		branch = 42
+	case 55, 56, 57:
+		branch = 95
+	}
 	switch {
 	case branch >= 26 && branch < 30: // LZW streams which fill the code table and keep using it
 		c.Origin = "lzw-full-table"
@@ -670,7 +679,7 @@ func genCase(t *rapid.T) Case {
 		c.Origin = "big-raw"
 		total := rapid.SampledFrom([]int{300 << 10, 400 << 10, 400 << 10, 1 << 20, 2 << 20}).Draw(t, "rawlen")
 		c.Tags = []string{"raw>256KiB/other-header"}
-		switch sub := rapid.IntRange(0, 9).Draw(t, "sub"); {
+		switch sub := rapid.IntRange(0, 12).Draw(t, "sub"); {
 		case sub <= 4: // progressive JPEG: the coefficient buffer is 4 bytes per sample
 			geo := rapid.SampledFrom([][3]int{{8800, 8800, 1}, {11000, 11000, 1}, {9000, 9000, 1}, {6000, 6000, 3}, {16000, 5000, 1}, {4100, 4100, 4}}).Draw(t, "geometry")
 			var comps []jpegComp
@@ -692,7 +701,7 @@ func genCase(t *rapid.T) Case {
 			body = tinyJPEG(0xc0, 8, 4096, 4096, []jpegComp{{1, 0x11, 0, 0}}, []int{0}, 64)
 			body = body[:len(body)-2]
 			setChain([]string{"DCTDecode"}, nil)
-		case sub == 6: // JBIG2: retained 2 MiB regions, more of them than 264 MiB hold
+		case sub == 6 || sub >= 10: // JBIG2: retained 2 MiB regions, more of them than 264 MiB hold
 			body = jbig2RetainedRegions(rapid.SampledFrom([]int{140, 150, 200}).Draw(t, "regions"))
 			setChain([]string{"JBIG2Decode"}, nil)
 			c.Tags = []string{"raw>256KiB/header-claims-more-than-cap", "raw>256KiB/jbig2-retained-regions"}
@@ -1005,7 +1014,7 @@ func genCase(t *rapid.T) Case {
 		at := rapid.IntRange(0, numNew-1).Draw(t, "at") // the new symbol with the interesting reference
 		cap := numIn + numNew
 		own := numIn + at
-		target := rapid.SampledFrom([]string{"earlier", "own", "own", "next", "next", "last-slot", "capacity", "capacity+1", "huge"}).Draw(t, "target")
+		target := rapid.SampledFrom([]string{"earlier", "earlier", "earlier", "own", "own", "next", "next", "last-slot", "capacity", "capacity+1", "huge"}).Draw(t, "target")
 		var id int
 		switch target {
 		case "earlier":
